@@ -122,11 +122,9 @@ class ScheduledFiniteThrust(ContinuousStateChangeEvent, metaclass=ABCMeta):
         See Also:
             :meth:`.ContinuousStateChangeEvent.__call__()`
         """
-        _ival = self.start_time - time
-        _fval = self.end_time - time
-        if fpe_equals(_ival, 0.0) or fpe_equals(_fval, 0.0):
-            return 0.0
-        return _ival
+        # [NOTE]: Changes sign at the start of the thrust only. The end of the thrust is marked by the
+        #   companion event returned by :meth:`.getEndEvent()`.
+        return self.start_time - time
 
     def __eq__(self, other: ScheduledFiniteThrust):
         """Check for equality between maneuver events.
@@ -157,11 +155,60 @@ class ScheduledFiniteThrust(ContinuousStateChangeEvent, metaclass=ABCMeta):
         See Also:
             :meth:`.ContinuousStateChangeEvent.getStateChangeCallback()`
         """
-        if fpe_equals(self.end_time - time, 0.0):
+        if time >= self.end_time or fpe_equals(self.end_time - time, 0.0):
             EventStack.pushEvent(EventRecord(f"Finite thrust ended at {time}", self.agent_id))
             return None
         EventStack.pushEvent(EventRecord(f"Finite thrust at {time}", self.agent_id))
         return self.thrust_func
+
+    def getEndEvent(self) -> FiniteThrustEnd:
+        """Return the companion event that interrupts integration when this thrust ends."""
+        return FiniteThrustEnd(self)
+
+
+class FiniteThrustEnd(ContinuousStateChangeEvent):
+    """Companion event of a :class:`.ScheduledFiniteThrust` that switches the thrust off at its end time.
+
+    The end of a thrust rarely coincides with the end of a propagation, so it needs its own zero
+    crossing for the integrator to stop there.
+    """
+
+    def __init__(self, thrust_event: ScheduledFiniteThrust):
+        """Instantiate a :class:`.FiniteThrustEnd` object.
+
+        Args:
+            thrust_event (:class:`.ScheduledFiniteThrust`): thrust whose end this event marks
+        """
+        self.thrust_event = thrust_event
+
+    def __call__(self, time: ScenarioTime, state: ndarray):
+        """When this function returns zero during integration, it interrupts the integration process.
+
+        See Also:
+            :meth:`.ContinuousStateChangeEvent.__call__()`
+        """
+        return self.thrust_event.end_time - time
+
+    def __eq__(self, other: FiniteThrustEnd):
+        """Check for equality between events.
+
+        See Also:
+            :meth:`.ContinuousStateChangeEvent.__eq__()`
+        """
+        if not isinstance(other, FiniteThrustEnd):
+            return NotImplemented
+        return self.thrust_event == other.thrust_event
+
+    def getStateChangeCallback(self, time: ScenarioTime):
+        """Return ``None``: no thrust is applied once the thrust has ended.
+
+        See Also:
+            :meth:`.ContinuousStateChangeEvent.getStateChangeCallback()`
+        """
+        EventStack.pushEvent(
+            EventRecord(f"Finite thrust ended at {time}", self.thrust_event.agent_id),
+        )
+        return None
 
 
 class ScheduledFiniteManeuver(ScheduledFiniteThrust):
